@@ -190,6 +190,8 @@ func l3Local(f []string) vlib.Res {
 		return l3Query(f)
 	case "again":
 		return l3Again(f)
+	case "warm", "advance", "heal":
+		return l3Misc(f)
 	}
 	return vlib.Res{Impl: "bad-op"}
 }
